@@ -29,6 +29,7 @@ partial def xdeclOfJson (j : Json) : Except String XDecl := do
     pure (.enumName (← (← j.getObjVal? "cls").getStr?) ms (← optBool j "mixin" false))
   | "fmtStr" => pure (.fmtStr (← (← j.getObjVal? "kind").getStr?) (← optBool j "strict" true))
   | "opt" => pure (.opt (← xdeclOfJson (← j.getObjVal? "x")))
+  | "anyOf" => pure (.anyOf (← (← (← j.getObjVal? "xs").getArr?).toList.mapM xdeclOfJson))
   | "seqOf" => pure (.seqOf (← seqKind j) (← xdeclOfJson (← j.getObjVal? "x")))
   | "setOf" => pure (.setOf (← xdeclOfJson (← j.getObjVal? "x")))
   | "mapStr" => pure (.mapStr (← xdeclOfJson (← j.getObjVal? "x")))
